@@ -103,6 +103,10 @@ def no_panic_oracle(case, trace):
     for t, r in trace:
         if "panic" in r and t in ("PARSE", "BIND", "NEW", "ITEM", "LEX", "DIG", "STATIC", "RENDER", "MULTI", "REPARSE"):
             yield "implementation panicked: %s %s" % (t, r[:300])
+        if t == "APICHK" and not r.startswith("ok"):
+            # the harness also calls the small public functions on values and signals (check / value / is_checked /
+            # failing_outputs / is_input ... / Display / Binary) and compares them with each other and with the data
+            yield "public API functions that must agree disagree: %s" % r[:400]
 
 
 def nontrivial_rows(k=2):
